@@ -24,7 +24,8 @@ def cfg(subs="S2", objs="O2", bc="B1", ops=4, ev=3, stop=False, tg="NoTargets", 
 
 PLAN = {
     "C12": {"quick": [("subs2_objs2_ops4", dict(subs="S2", objs="O2", bc="B2", ops=4, ev=2)),
-                      ("respawn_ops4", dict(subs="S1", objs="O2", bc="B1", ops=4, ev=2, resp=True))],
+                      ("respawn_ops4", dict(subs="S1", objs="O2", bc="B1", ops=4, ev=2, resp=True)),
+                      ("subs2_objs2_ops5_b1", dict(subs="S2", objs="O2", bc="B1", ops=5, ev=1))],
             "thorough": [("subs2_objs2_ops5", dict(subs="S2", objs="O2", bc="B2", ops=5, ev=3)),
                          ("subs2_stop_ops5", dict(subs="S2", objs="O2", bc="B1", ops=5, ev=3, stop=True)),
                          ("respawn_ops5", dict(subs="S2", objs="O1", bc="B1", ops=5, ev=2, resp=True, stop=True))]},
